@@ -148,7 +148,9 @@ def build_loss(case, rng):
         pr.make_data(B)
         loss = pr.loss()
         tabs = {"phi": rng.uniform(0.1, 0.5, (B, 1))} if want_p else None
-        return loss, pr.params, pr.batch(param_batch=tabs)
+        # observation batches carry observed equation parameters in half of the cases
+        obs_eq = {"theta": rng.uniform(0.5, 1.5, (B, 1))} if (want_o and (fl == "both" or kind != "statio")) else None
+        return loss, pr.params, pr.batch(param_batch=tabs, obs_eq=obs_eq)
     from .. import eqs
     D = {"ode": 1, "statio": d, "nonstatio": d + 1}[kind]
     eqt = {"ode": "ODE", "statio": "statio_PDE", "nonstatio": "nonstatio_PDE"}[kind]
